@@ -408,3 +408,47 @@ Example C19_fanout_example :
     [(HBeforeStackPush, 0%nat); (HAfterStep, 1%nat); (HAfterStep, 0%nat); (HBeforeStackPush, 0%nat); (HAfterStep, 1%nat);
      (HAfterStep, 0%nat); (HBeforeStackPush, 0%nat); (HAfterStep, 1%nat); (HAfterStep, 0%nat)].
 Proof. vm_compute. repeat split; reflexivity. Qed.
+
+(** * Round 8: what the stack callbacks are handed as their DATA argument (model/DebugStackData.v).
+    The placement automaton above says where BeforeStackPush / AfterStackPush / BeforeStackPop / AfterStackPop occur;
+    these statements are about the item and the two stacks they show.  As for the automaton they are about the
+    instrumented two-stack machine written in the shape of stack.go's PushByteArray / PopByteArray ([irun]: any sequence
+    of pushes and pops on either stack, changes of the stacks made without callbacks, lifecycle callbacks in between)
+    and about the ACCEPTOR [data_ok]; that the real engine's stack events are accepted is decided on every run on the
+    observed events (corr/C19.v check_data) and, for every program of the run, by the same predicate stated in Go. *)
+From GoBT Require Import model.DebugStackData.
+
+(** every event sequence of the machine is accepted: whatever is pushed or popped on whichever stack, from whatever
+    contents, the item AfterStackPush reports is the item BeforeStackPush announced and the new top of the stack that
+    grew; AfterStackPop reports the item the stack that shrank lost; a failed pop saw an empty stack and ends the run *)
+Theorem C19_stack_callback_data_of_the_machine : forall ops st, data_ok (irun st ops) = true.
+Proof. exact irun_data_ok. Qed.
+Print Assumptions C19_stack_callback_data_of_the_machine.
+
+(** the checker is the readable inductive specification *)
+Theorem C19_stack_callback_data_checker_is_the_specification : forall tr, data_ok tr = true <-> DataOK tr.
+Proof. exact data_ok_iff. Qed.
+Print Assumptions C19_stack_callback_data_checker_is_the_specification.
+
+(** what acceptance means for a push pair and a pop pair, spelled out on the two snapshots *)
+Theorem C19_stack_callback_push_pair : forall b x a y r,
+  data_ok (SBeforePush b x :: SAfterPush a y :: r) = true ->
+  x = y /\ ((s_data a = y :: s_data b /\ s_alt a = s_alt b) \/ (s_alt a = y :: s_alt b /\ s_data a = s_data b)).
+Proof. exact data_ok_push_pair. Qed.
+Print Assumptions C19_stack_callback_push_pair.
+
+Theorem C19_stack_callback_pop_pair : forall b a y r,
+  data_ok (SBeforePop b :: SAfterPop a y :: r) = true ->
+  (s_data b = y :: s_data a /\ s_alt a = s_alt b) \/ (s_alt b = y :: s_alt a /\ s_data a = s_data b).
+Proof. exact data_ok_pop_pair. Qed.
+Print Assumptions C19_stack_callback_pop_pair.
+
+(** non-vacuity: OP_1 OP_7 then OP_TOALTSTACK (07 goes onto the alt stack while 01 stays on the data stack) is accepted;
+    the same push with AfterStackPush handed the top of the DATA stack is refused *)
+Example C19_stack_callback_data_examples :
+  data_ok (irun (mkStacks [] []) [OMark; OPush WData [x01]; OMark; OPush WData [x07]; OMark; OPop WData; OPush WAlt [x07]; OMark;
+                                   OPop WAlt; OMark; OPop WData; OMark]) = true /\
+  data_ok [SBeforePush (mkStacks [[x01]] []) [x07]; SAfterPush (mkStacks [[x01]] [[x07]]) [x07]] = true /\
+  data_ok [SBeforePush (mkStacks [[x01]] []) [x07]; SAfterPush (mkStacks [[x01]] [[x07]]) [x01]] = false /\
+  data_ok [SBeforePop (mkStacks [[x07]; [x01]] []); SAfterPop (mkStacks [[x01]] []) [x01]] = false.
+Proof. vm_compute. repeat split; reflexivity. Qed.
